@@ -27,6 +27,8 @@ theorem sp_parsePoryswitchHeader (env : Env) (k : Nat) (s : PState) (hi : Inv T 
   tstart hi
   tgo
 
+/-- The font id token of `format()` parameters is either still the default token (type `ILLEGAL`, never
+reported: the error site checks `type != STRING`) or stands at an input position. -/
 def FpOk (fp : FmtParams) : Prop := fp.fontIdToken.type ≠ .STRING ∨ Tin T E fp.fontIdToken
 
 theorem fpok_tin {fp : FmtParams} (h : FpOk T E fp) (h2 : ¬ ¬ fp.fontIdToken.type = TT.STRING) :
